@@ -1,10 +1,21 @@
 (* sx interface of the slicing model (C17).
-   input : ( n_avail mult ((maxt (d ...) (answer ...)) ...) )   maxt = -1 for "no limit"
+   input : ( n_avail mult ((maxt (d ...) (answer ...)) ...) [table part] )   maxt = -1 for "no limit"
            successive calls of _auto_search_rules on the same searcher: each call starts at
            the packet count and clock offset where the previous one stopped
-   output: ( (code k (call point ...)) ... )  code 0 Found / 1 Exceeded / 2 NotFound / 3 OutOfFuel *)
+   output: ( (code k (call point ...)) ... )  code 0 Found / 1 Exceeded / 2 NotFound / 3 OutOfFuel
+   With a 4th element (table universes)
+     table part = ( (mode expand_verified fuel start) empty-bits strats ver-sids sym-sids
+                    inferral-sids initial-sids (expansion-set ...) (is_verified answer ...) )
+           (strats as in Searcher/Run.v)
+   the same script is ALSO run on the packet-level state machine of Searcher/Step.v and the
+   output is ( old-output  ( init-events
+                             ((code k (call point ...) (sevent ...)) ...)     code 4 = crashed
+                             (status unused-answers classes emptiness tried symexp infexp) ) )
+     sevent = (0 label (sid ...) inferral (event ...)) | (1) queue dry | (2) dead
+     event  = the searcher-level events of the C04 trace: ruledb.add, classdb.set_empty,
+              classqueue.add / set_not_inferrable / set_stop_yielding (tags 0 1 2 3 4 of Run.v) *)
 From Coq Require Import ZArith List Bool.
-From CSS Require Import Base.Sx Searcher.Slicing.
+From CSS Require Import Base.Sx Base.PyList ClassDB.Model Searcher.Model Searcher.Run Searcher.Slicing Searcher.Step.
 Import ListNotations.
 Open Scope Z_scope.
 
@@ -29,5 +40,58 @@ Fixpoint run_calls (n_avail mult k extra : Z) (calls : list sx) : list sx :=
       enc_outcome o pts :: run_calls n_avail mult k' extra' rest
   end.
 
+(* ---- the state machine on the same script ---- *)
+Definition obs_event (e : event) : bool :=
+  match e with
+  | EvAdd _ _ _ _ | EvSetEmpty _ _ | EvQAdd _ | EvQNotInf _ | EvQStop _ => true
+  | _ => false
+  end.
+Definition enc_events (es : list event) : sx := L (map enc_event (filter obs_event es)).
+
+Definition enc_sevent (e : sevent) : sx :=
+  match e with
+  | SPacket p evs => L [I 0; I (p_label p); of_Zs (p_sids p); of_bool (p_inferral p); enc_events evs]
+  | SDry => L [I 1]
+  | SDead => L [I 2]
+  end.
+
+Definition enc_outcome2 (x : outcome2 * list Z * list sevent) : sx :=
+  let '(o, pts, es) := x in
+  let '(code, k) := match o with
+                    | Ret (Found k) => (0, k) | Ret (Exceeded k) => (1, k) | Ret (NotFound k) => (2, k)
+                    | Ret OutOfFuel => (3, 0) | Crashed k => (4, k)
+                    end in
+  L [I code; I k; of_Zs pts; L (map enc_sevent es)].
+
+Definition dec_call (c : sx) : call :=
+  let m := sx_Z (sx_nth c 0) in
+  (if m <? 0 then None else Some m, sx_Zs (sx_nth c 1), map sx_bool (sx_list (sx_nth c 2))).
+
+Definition run_steps (mult : Z) (calls : list sx) (tp : sx) : sx :=
+  let h := sx_Zs (sx_nth tp 0) in
+  let g n := nth n h 0 in
+  let T := mkT (sx_Zs (sx_nth tp 1)) (map dec_strat (sx_list (sx_nth tp 2)))
+               (sx_Zs (sx_nth tp 3)) (sx_Zs (sx_nth tp 4)) in
+  let mode := g 0%nat in
+  let ev := negb (g 1%nat =? 0) in
+  let F := Z.to_nat (g 2%nat) in
+  let inf := sx_Zs (sx_nth tp 5) in
+  let ini := sx_Zs (sx_nth tp 6) in
+  let exps := map sx_Zs (sx_list (sx_nth tp 7)) in
+  let ans := map sx_bool (sx_list (sx_nth tp 8)) in
+  let '(s0, ev0) := init_sstate T mode F inf ini exps ans (g 3%nat) in
+  let '(outs, s1, _, _, _) := run_calls_st T mode F ev inf ini exps mult s0 0 0 (map dec_call calls) in
+  let c := core s1 in
+  L [ enc_events ev0; L (map enc_outcome2 outs);
+      L [ I (enc_status (stat c)); of_nat (length (answers c));
+          of_Zs (classes (cdb c)); L (map enc_empty (empties (cdb c)));
+          of_Zs (isort (tried c)); of_Zs (isort (dedup (symexp c))); of_Zs (isort (infexp c)) ] ].
+
 Definition run_c17 (inp : sx) : sx :=
-  L (run_calls (sx_Z (sx_nth inp 0)) (sx_Z (sx_nth inp 1)) 0 0 (sx_list (sx_nth inp 2))).
+  (* a call flagged (4th field) as ended by an exception of the expansion is outside the control-flow model *)
+  let old := L (run_calls (sx_Z (sx_nth inp 0)) (sx_Z (sx_nth inp 1)) 0 0
+                  (filter (fun c => sx_Z (sx_nth c 3) =? 0) (sx_list (sx_nth inp 2)))) in
+  match sx_list (sx_nth inp 3) with
+  | [] => old
+  | _ => L [old; run_steps (sx_Z (sx_nth inp 1)) (sx_list (sx_nth inp 2)) (sx_nth inp 3)]
+  end.
